@@ -187,10 +187,18 @@ func c14Case(env *Env, tape *sim.Tape) *CaseOut {
 		}
 		op.R.FailAt, op.R.FailErr, op.R.FailWithData = kr, readErr, fk == fkReadData
 	}
+	if !useBytes {
+		op.ReaderKind = krRaw / 11 % 4 % 3 // plain, bufio, MultiReader
+		if op.ReaderKind != 0 {
+			out.stat("probe_reader_wrapped_bufio_or_multireader", 1)
+		}
+	}
 	switch entry {
 	case EWriter, ERespWriter, EMiddleErr:
 		op.WriteChunks = drawChunks(tape, R, 8)
 		op.ContentType = mt
+		op.Method = []string{"", "GET", "HEAD", "POST"}[kwRaw/5%4]
+		op.EarlyHints = kwRaw/3%8 == 7
 	case EReader:
 		n := tape.Draw(4)
 		for i := 0; i < n; i++ {
